@@ -2,6 +2,7 @@ package gosym
 
 import (
 	"fmt"
+	"math/rand"
 	"go/types"
 	"os"
 	"sort"
@@ -70,6 +71,7 @@ type Options struct {
 	ForcedModel    map[string]uint64
 	ForcedSchedule []int
 	CrossSolvers   []string
+	Seed           int
 }
 
 type Violation struct {
@@ -112,6 +114,11 @@ type Stats struct {
 	CrossDisagree  int            `json:"cross_disagreements"`
 	MaxTermSize    int            `json:"max_assert_term_nodes"`
 	AssertsByModel int            `json:"asserts_refuted_by_path_model"`
+	UnsatByAbstraction int        `json:"queries_unsat_under_uf_abstraction"`
+	SatBySampling  int            `json:"queries_sat_by_sampled_model"`
+	PortfolioCalls int            `json:"portfolio_calls_after_primary_unknown"`
+	PortfolioDecided int          `json:"portfolio_decided"`
+	AssertsByAbstraction int      `json:"asserts_unsat_under_uf_abstraction_of_div_mul"`
 	StoppedEarly   bool           `json:"stopped_after_5_violations,omitempty"`
 }
 
@@ -188,6 +195,7 @@ type Engine struct {
 	pcVars     map[int]bool
 	probeHits  int
 	synUnsat   int
+	rng        *rand.Rand
 }
 
 type allowRec struct {
@@ -310,6 +318,32 @@ func (e *Engine) markInconclusive(msg string) {
 	}
 }
 
+func (e *Engine) pcOrTermHard(t *Term) bool {
+	seen := map[int]bool{}
+	if hasHard(t, seen) {
+		return true
+	}
+	for _, c := range e.pc {
+		if hasHard(c, seen) {
+			return true
+		}
+	}
+	return false
+}
+
+// checkQuiet is check without inconclusive bookkeeping (used for the
+// abstraction pre-pass whose failure is followed by the precise query).
+func (e *Engine) checkQuiet(extra *Term) (SatResult, *Model) {
+	if e.solver == nil || e.solver.dead {
+		return Unknown, nil
+	}
+	r, _, err := e.solver.Check(e.pc, extra, nil)
+	if err != nil {
+		return Unknown, nil
+	}
+	return r, nil
+}
+
 func (e *Engine) check(extra *Term) (SatResult, *Model) {
 	if e.opts.Concrete || e.solver == nil {
 		panic(pathEnd{kind: endUnsupported, msg: "symbolic condition in concrete mode: " + extra.String()})
@@ -322,6 +356,28 @@ func (e *Engine) check(extra *Term) (SatResult, *Model) {
 				e.synUnsat++
 				return Unsat, nil
 			}
+		}
+	}
+	hard := extra != nil && e.pcOrTermHard(extra)
+	if hard {
+		// division / multiplication by symbolic operands: try the sound shortcuts
+		// before the bit-blasting back end: unsat under the UF abstraction, or a
+		// sampled concrete model
+		save := e.pc
+		apc := make([]*Term, len(save))
+		for i, c := range save {
+			apc[i] = abstractHard(c)
+		}
+		e.pc = apc
+		ra, _ := e.checkQuiet(abstractHard(extra))
+		e.pc = save
+		if ra == Unsat {
+			e.res.Stats.UnsatByAbstraction++
+			return Unsat, nil
+		}
+		if m := e.sample(extra, 4000); m != nil {
+			e.res.Stats.SatBySampling++
+			return Sat, m
 		}
 	}
 	if e.solver.dead {
@@ -340,8 +396,20 @@ func (e *Engine) check(extra *Term) (SatResult, *Model) {
 		return Unknown, nil
 	}
 	if r == Unknown {
-		e.markInconclusive("solver unknown/timeout")
-		return Unknown, nil
+		// secondary back ends (one-shot): z3 4.8.12, cvc5 bv-as-int, cvc5
+		t0 := time.Now()
+		pr, pm, who := Portfolio(e.pc, extra, e.vars, e.opts.TimeoutMS/1000+1)
+		if os.Getenv("VF_DEBUG") != "" {
+			fmt.Fprintf(os.Stderr, "[%s] primary unknown on %s ; portfolio: %s by %s in %.1fs\n", e.harness, extra.String(), pr, who, time.Since(t0).Seconds())
+		}
+		e.res.Stats.PortfolioCalls++
+		if pr == Unknown {
+			e.markInconclusive("solver unknown/timeout")
+			return Unknown, nil
+		}
+		e.res.Stats.PortfolioDecided++
+		_ = who
+		r, mv = pr, pm
 	}
 	if r == Sat {
 		m := NewModel()
@@ -629,7 +697,29 @@ func (e *Engine) assert(c *Term, msg string, knownID string, guard *Term) {
 		r, m = Sat, e.model
 		e.res.Stats.AssertsByModel++
 	} else {
-		r, m = e.check(neg)
+		t0 := time.Now()
+		tried := false
+		if e.solver != nil && e.pcOrTermHard(neg) {
+			// first under the uninterpreted abstraction of division/multiplication
+			save := e.pc
+			apc := make([]*Term, len(save))
+			for i, c := range save {
+				apc[i] = abstractHard(c)
+			}
+			e.pc = apc
+			ra, _ := e.checkQuiet(abstractHard(neg))
+			e.pc = save
+			if ra == Unsat {
+				r, tried = Unsat, true
+				e.res.Stats.AssertsByAbstraction++
+			}
+		}
+		if !tried {
+			r, m = e.check(neg)
+		}
+		if e.opts.Verbose > 0 || r == Unknown {
+			fmt.Fprintf(os.Stderr, "[%s] assert %q: %s in %.2fs (pc=%d, nodes=%d)\n", e.harness, msg, r, time.Since(t0).Seconds(), len(e.pc), c.Size())
+		}
 	}
 	if len(e.opts.CrossSolvers) > 0 && r != Unknown && m != e.model {
 		e.crossCheck(neg, r)
@@ -898,3 +988,66 @@ func (e *Engine) runPath(fn *ssa.Function, it *workItem) (end pathEnd) {
 // ---------------------------------------------------------------------------
 
 func typeString(t types.Type) string { return types.TypeString(t, nil) }
+
+// sample looks for a concrete model of pc ∧ extra by evaluating random
+// assignments (small values, boundary values, random bits). A hit is a proof of
+// satisfiability; a miss proves nothing.
+func (e *Engine) sample(extra *Term, tries int) *Model {
+	vm := map[int]*Term{}
+	for _, c := range e.pc {
+		for _, v := range varsOf(c) {
+			vm[v.id] = v
+		}
+	}
+	for _, v := range varsOf(extra) {
+		vm[v.id] = v
+	}
+	if len(vm) == 0 || len(vm) > 24 {
+		return nil
+	}
+	vs := make([]*Term, 0, len(vm))
+	for _, v := range vm {
+		vs = append(vs, v)
+	}
+	sort.Slice(vs, func(i, j int) bool { return vs[i].id < vs[j].id })
+	rng := e.rng
+	if rng == nil {
+		rng = rand.New(rand.NewSource(int64(e.opts.Seed) + 12345))
+		e.rng = rng
+	}
+	for k := 0; k < tries; k++ {
+		m := e.model.Clone()
+		for _, v := range vs {
+			var x uint64
+			switch rng.Intn(10) {
+			case 0, 1, 2, 3:
+				x = uint64(rng.Intn(9))
+			case 4, 5:
+				x = uint64(rng.Intn(70))
+			case 6:
+				x = uint64(rng.Intn(5000))
+			case 7:
+				x = uint64(1) << uint(rng.Intn(63))
+			case 8:
+				x = (uint64(1) << uint(rng.Intn(63))) - uint64(rng.Intn(3))
+			default:
+				x = rng.Uint64()
+			}
+			m.vals[v.id] = x & mask(v.W)
+		}
+		ok := true
+		for _, c := range e.pc {
+			if x, good := m.Eval(c); !good || x != 1 {
+				ok = false
+				break
+			}
+		}
+		if !ok {
+			continue
+		}
+		if x, good := m.Eval(extra); good && x == 1 {
+			return m
+		}
+	}
+	return nil
+}
